@@ -130,6 +130,10 @@ impl<'a> __Type<'a> {
                         (include_deprecated || !field.deprecation.is_deprecated())
                             && !field.name.starts_with("__")
                     })
+                    .filter(|field| {
+                        self.visible_types
+                            .contains(registry::MetaTypeName::concrete_typename(&field.ty))
+                    })
                     .map(|field| __Field {
                         registry: self.registry,
                         visible_types: self.visible_types,
@@ -233,6 +237,10 @@ impl<'a> __Type<'a> {
                         include_deprecated || !input_value.deprecation.is_deprecated()
                     })
                     .filter(|input_value| is_visible(ctx, &input_value.visible))
+                    .filter(|input_value| {
+                        self.visible_types
+                            .contains(registry::MetaTypeName::concrete_typename(&input_value.ty))
+                    })
                     .map(|input_value| __InputValue {
                         registry: self.registry,
                         visible_types: self.visible_types,
